@@ -41,7 +41,22 @@ KINDS = ["works_for", "head_of", "member_of_append", "members_add", "sub_org_app
          "has_part_append", "member_of_assign", "members_assign"]
 
 
+def gen_survivor(rng):
+    """a live source keeps relating to targets that die (only the target dies), then relates to a new instance
+    that gets the dead target's node index"""
+    survivors = [["org", rng.choice(["Org", "Dept"]), f"s{i}"] for i in range(rng.randint(1, 2))]
+    if rng.random() < 0.6:
+        survivors.append(["person", rng.choice(["Person", "Employee"]), "sp0"])
+    rounds = [[rng.choice(["sub_org_of", "part_of", "works_for", "member_of"]) for _ in range(rng.randint(1, 4))]
+              for _ in range(rng.randint(1, 3))]
+    final = [[rng.choice(["sub_org_of", "part_of", "works_for", "member_of"]), rng.randrange(10), rng.randrange(10)] for _ in range(rng.randint(1, 5))]
+    return {"mode": "survivor", "survivors": survivors, "rounds": rounds, "final": final, "new_orgs": rng.randint(1, 3),
+            "sweep": "sweep"}
+
+
 def gen(rng, tier, ctx):
+    if rng.random() < 0.3:
+        return gen_survivor(rng)
     rounds = [rng.randint(1, 20) for _ in range(rng.randint(1, 3))]
     prefix = []
     for n in rounds:
@@ -152,6 +167,13 @@ def observe(om, named, sg):
 
 def audit_index(sg, C, problems, label):
     try:
+        _audit_index(sg, C, problems, label)
+    except Exception as e:      # the index is organised differently: nothing to observe
+        C["index_audit_skipped_internals_differ:" + type(e).__name__] += 1
+
+
+def _audit_index(sg, C, problems, label):
+    try:
         idx = sg._relation_index
         g = sg._instance_graph
     except AttributeError:
@@ -243,10 +265,86 @@ def run_suffix(spec, om, with_prefix, C, problems):
     return rel, fields, errors, n_assert, (reclaimed, related)
 
 
+def _garbage_round(om, named, kinds, C):
+    """every local (the garbage targets) dies with the call"""
+    orgs = [o for n, o in sorted(named.items()) if isinstance(o, om.Org)]
+    persons = [o for n, o in sorted(named.items()) if isinstance(o, om.Person)]
+    for i, kind in enumerate(kinds):
+        g = om.Org(f"g{i}")
+        if kind in ("sub_org_of", "part_of") and orgs:
+            s_ = orgs[i % len(orgs)]
+            getattr(s_, kind).append(g)
+            setattr(s_, kind, [])              # only the target is released
+            C["survivor_relations_to_garbage"] += 1
+        elif kind == "works_for" and persons:
+            persons[0].works_for = g
+            persons[0].works_for = None
+            C["survivor_relations_to_garbage"] += 1
+        elif kind == "member_of" and persons:
+            persons[0].member_of.append(g)
+            persons[0].member_of = []
+            C["survivor_relations_to_garbage"] += 1
+
+
+def run_survivor(spec, om, with_history, C, problems):
+    from krrood.entity_query_language.symbol_graph import SymbolGraph
+    SymbolGraph().clear()
+    SymbolGraph()
+    named = {}
+    for kind, cls, name in spec["survivors"]:
+        named[name] = om.ALL_CLASSES[cls](name)
+    if with_history:
+        for kinds in spec["rounds"]:
+            _garbage_round(om, named, kinds, C)
+            gc.collect()
+            SymbolGraph().remove_dead_instances()
+            audit_index(SymbolGraph(), C, problems, "after sweeping dead targets")
+    for i in range(spec["new_orgs"]):
+        named[f"n{i}"] = om.Org(f"n{i}")
+    orgs = [o for n, o in sorted(named.items()) if isinstance(o, om.Org) and n.startswith("s")]
+    news = [o for n, o in sorted(named.items()) if n.startswith("n")]
+    persons = [o for n, o in sorted(named.items()) if isinstance(o, om.Person)]
+    errors, n_assert = [], 0
+    for kind, i, j in spec["final"]:
+        try:
+            if kind in ("sub_org_of", "part_of") and orgs:
+                getattr(orgs[i % len(orgs)], kind).append(news[j % len(news)])
+                n_assert += 1
+            elif kind == "works_for" and persons:
+                persons[0].works_for = news[j % len(news)]
+                n_assert += 1
+            elif kind == "member_of" and persons:
+                persons[0].member_of.append(news[j % len(news)])
+                n_assert += 1
+        except Exception as e:
+            errors.append(f"{kind}: {type(e).__name__}: {e}"[:160])
+    rel, fields = observe(om, named, SymbolGraph())
+    return rel, fields, errors, n_assert
+
+
 def run(spec, ctx):
     om = ctx["om"]
     C = ctx["counters"]
     problems = []
+    if spec.get("mode") == "survivor":
+        relA, fieldsA, errA, nA = run_survivor(spec, om, False, C, problems)
+        relB, fieldsB, errB, nB = run_survivor(spec, om, True, C, problems)
+        C["suffix_assertions"] += nA
+        C["relations_compared"] += len(relA)
+        C["survivor_cases"] += 1
+        # relations / field entries that point to (swept or unswept) garbage are not part of the comparison
+        relB = {t for t in relB if "<foreign>" not in t}
+        fieldsB = {t for t in fieldsB if "<foreign>" not in t}
+        if errA != errB:
+            problems.append(f"assertions raise differently: fresh {errA[:2]} vs after-history {errB[:2]}")
+        if relA != relB:
+            problems.append(f"graph relations differ: only on fresh graph {sorted(relA - relB)[:4]}, only after history {sorted(relB - relA)[:4]}")
+        if fieldsA != fieldsB:
+            problems.append(f"field values differ: only on fresh graph {sorted(fieldsA - fieldsB)[:4]}, only after history {sorted(fieldsB - fieldsA)[:4]}")
+        if problems:
+            return {"status": "fail", "kind": "history-dependent", "key": "dead-node-leaves-index-entries", "detail": "; ".join(problems[:3])}
+        return {"status": "ok", "nontrivial": nA > 0, "shape": f"survivor|{spec['rounds']}|{[f[0] for f in spec['final']]}|{[s[1] for s in spec['survivors']]}",
+                "obs": {"relations": len(relA)}}
     relA, fieldsA, errA, nA, _ = run_suffix(spec, om, False, C, problems)
     relB, fieldsB, errB, nB, (reclaimed, related) = run_suffix(spec, om, True, C, problems)
     C["suffix_assertions"] += nA
